@@ -53,7 +53,7 @@ pub fn run(tier: Tier) -> i32 {
     for r in REFS {
         for (t, part) in [("g.s", "subkey-path"), ("g", "to-group"), ("nokey", "missing"), ("a", "self"), ("g.nokey", "missing"), ("b.s", "path-through-value"),
             // a dangling segment in the middle of a path whose last segment exists one level up
-            ("nogroup.b", "dangling-segment"), ("g.nogroup.s", "dangling-segment"), ("b.b", "dangling-segment"), ("g.s.s", "dangling-segment")] {
+            ("ns:b", "namespace-prefix-in-a-flat-project"), ("ns:g.s", "namespace-prefix-in-a-flat-project"), ("nogroup.b", "dangling-segment"), ("g.nogroup.s", "dangling-segment"), ("b.b", "dangling-segment"), ("g.s.s", "dangling-segment")] {
             let mut e = ref_entries("a", r, t, "b", "en.a");
             e.extend(leaf_entries("b", Leaf::Interp, "en.b"));
             e.push(("g".to_string(), Val::Sub(vec![("s".to_string(), s(vec![text("[gs]"), var("x")]))])));
@@ -239,7 +239,7 @@ pub fn run(tier: Tier) -> i32 {
         }
     }
     let mut cov = serde_json::Map::new();
-    cov.insert("rule".into(), json!(format!("chains k0 -> .. -> leaf of depth <= {max_depth}: every tuple over 18 referencing forms (whole range branch / plural form, literal float count, whole value, mid text, inside component, string/number/bool/renaming/nested-$t argument, literal count 1 and 0, renamed count, unknown argument, inside range branch, inside plural form, two references) x 10 target kinds (text, interpolation, component, range, plural, number, plain `{{{{count}}}}` variable, the empty string, a float range, formatted variables) x every assignment of key names (all permutations for depth<=2); special targets (subkey path, subkey group, missing, self, path through a value, a dangling middle segment whose tail exists one level up); all digraphs on <=3 nodes where each node is text, $t(j) or $t(j,{{x:$t(k)}}) (cycles included); 4-locale projects (plain, explicit-null target, inheriting locale with null target) for depth <= {loc_depth}; two-namespace layouts for depth 2; literal counts 0..=4 and 0.5 / 1.0 / 1.5 on cardinal and ordinal plurals in pt / pt-PT / en-GB / fr-CA projects (regional rules); every inherits map x target presence x referencing-key state over 4 locales; each accepted project: every key in every locale rendered under boundary counts against the substitution model; each rejected project: Err whose message names a key")));
+    cov.insert("rule".into(), json!(format!("chains k0 -> .. -> leaf of depth <= {max_depth}: every tuple over 18 referencing forms (whole range branch / plural form, literal float count, whole value, mid text, inside component, string/number/bool/renaming/nested-$t argument, literal count 1 and 0, renamed count, unknown argument, inside range branch, inside plural form, two references) x 10 target kinds (text, interpolation, component, range, plural, number, plain `{{{{count}}}}` variable, the empty string, a float range, formatted variables) x every assignment of key names (all permutations for depth<=2); special targets (subkey path, subkey group, missing, self, path through a value, a dangling middle segment whose tail exists one level up, a namespace prefix in a project without namespaces); all digraphs on <=3 nodes where each node is text, $t(j) or $t(j,{{x:$t(k)}}) (cycles included); 4-locale projects (plain, explicit-null target, inheriting locale with null target) for depth <= {loc_depth}; two-namespace layouts for depth 2; literal counts 0..=4 and 0.5 / 1.0 / 1.5 on cardinal and ordinal plurals in pt / pt-PT / en-GB / fr-CA projects (regional rules); every inherits map x target presence x referencing-key state over 4 locales; each accepted project: every key in every locale rendered under boundary counts against the substitution model; each rejected project: Err whose message names a key")));
     cov.insert("exhaustive".into(), json!(true));
     cov.insert("outcome_classes".into(), json!(*classes.lock().unwrap()));
     cov.insert("key_locale_comparisons".into(), json!(*keys_total.lock().unwrap()));
